@@ -606,7 +606,7 @@ class Pat:
                 kind = 'seq'
                 i += 2
                 if i + 1 < len(toks) and toks[i].text == ':' and toks[i].ws == '' and toks[i + 1].kind == 'ident' and toks[i + 1].ws == '' \
-                        and toks[i + 1].text in ('ident', 'tt', 'any', 'lit', 'seq'):
+                        and toks[i + 1].text in ('ident', 'tt', 'any', 'lit', 'seq', 'straight'):
                     kind = toks[i + 1].text
                     i += 2
                 self.items.append(('var', name, kind))
@@ -677,13 +677,17 @@ def match_at(pat, toks, i, hi):
             c2[name] = toks[ti:end]
             return rec(pi + 1, end, c2)
         # seq / any: minimal length first; jump over bracket groups
-        allow_semi = kind == 'any'
-        min_len = 0 if kind == 'any' else 1
+        # 'straight' = 'any' that contains no control transfer (return / break / continue at any depth): dropped statements
+        # captured with it cannot leave the sliced function or loop early
+        allow_semi = kind in ('any', 'straight')
+        min_len = 0 if kind in ('any', 'straight') else 1
         end = ti
         first = True
         while True:
             if end - ti >= min_len and not first or (first and min_len == 0):
                 pass
+            if kind == 'straight' and any(x.kind == 'ident' and x.text in ('return', 'break', 'continue') for x in toks[ti:end]):
+                return None
             if end - ti >= min_len:
                 c2 = dict(caps)
                 c2[name] = toks[ti:end]
